@@ -11,14 +11,21 @@ BIG = [2**64 - 8, 2**63]
 class World:
     """Real objects + an abstract mirror (plain dicts) used for the scan."""
 
-    def __init__(self, rng):
+    def __init__(self, rng, sym=False):
         import gtirb
         self.g = gtirb
         self.rng = rng
+        # C13: intervals also carry symbolic expressions (identified by the
+        # `offset` operand of the SymAddrConst) and the scope-level
+        # symbolic_expressions_at lookups are driven (model `symscopes`)
+        self.sym = sym
+        self.next_expr = 1
         self.ir = gtirb.IR()
         self.mods = [gtirb.Module(name="m0", ir=self.ir),
                      gtirb.Module(name="m1", ir=self.ir)]
         self.secs, self.bis, self.blks = [], [], []
+        self.symbols = [gtirb.Symbol(name="y%d" % i, module=self.mods[0])
+                        for i in range(2)] if sym else []
         self.lines = ["reset"]
         self.impl = ["ok"]
 
@@ -135,6 +142,18 @@ class World:
             x.address = old
             self.emit("biset %d %s %d" % (op[1], "-" if old is None else old,
                                           x.size))
+        elif k == "sym-set":
+            x = self.bis[op[1]]
+            eid = self.next_expr
+            self.next_expr += 1
+            x.symbolic_expressions[op[2]] = self.g.SymAddrConst(
+                eid, self.rng.choice(self.symbols))
+            self.emit("sym %d %d %d" % (op[1], op[2], eid))
+        elif k == "sym-del":
+            x = self.bis[op[1]]
+            if op[2] in x.symbolic_expressions:
+                del x.symbolic_expressions[op[2]]
+                self.emit("symdel %d %d" % (op[1], op[2]))
         elif k == "sec-move":         # changes module-scope composition only
             self.secs[op[1]].module = self.mods[op[2]]
         else:
@@ -142,6 +161,10 @@ class World:
 
     def gen_edit(self):
         rng = self.rng
+        if self.sym and rng.random() < 0.3:
+            if rng.random() < 0.75:
+                return ("sym-set", rng.randrange(N_BI), rng.randrange(0, 9))
+            return ("sym-del", rng.randrange(N_BI), rng.randrange(0, 9))
         r = rng.random()
         if r < 0.08:
             return ("blk-toggle", rng.randrange(N_BLK),
@@ -290,6 +313,26 @@ class World:
                                   "byte=%s code=%s data=%s, a scan says "
                                   "byte=%s code=%s data=%s" % (
                                       meth, arg, xi, gi, gc, gd, wi, wc, wd))
+        if self.sym:
+            for xi, x in enumerate(bis):
+                if rng.random() < 0.5:
+                    continue
+                rg, arg = self.rnd_range()
+                got = sorted("%d:%d:%d" % (xi, k, e.offset) for _, k, e in
+                             x.symbolic_expressions_at(arg))
+                want = []
+                if x.address is not None:
+                    for k, e in x.symbolic_expressions.items():
+                        p = x.address + k
+                        if rg[0] <= p < rg[1] and (p - rg[0]) % rg[2] == 0:
+                            want.append("%d:%d:%d" % (xi, k, e.offset))
+                ctx.evaluations += 1
+                self.emit("symqi %d %d %d %d" % (xi, rg[0], rg[1], rg[2]),
+                          "[" + ",".join(got) + "]")
+                if got != sorted(want):
+                    return report("C13", "symbolic_expressions_at(%s) on "
+                                  "interval %d returned %s, a scan says %s"
+                                  % (arg, xi, got, sorted(want)))
         scopes = [("sec", si, [s]) for si, s in enumerate(secs)]
         scopes += [("mod", mi, list(m.sections))
                    for mi, m in enumerate(self.mods)]
@@ -348,6 +391,36 @@ class World:
                                   "code=%s data=%s; must contain %s, may "
                                   "contain %s" % (meth, arg, kind, si, got,
                                                   gc, gd, must, may))
+            if self.sym:
+                rg, arg = self.rnd_range()
+                gobjs = list(owner.symbolic_expressions_at(arg))
+                bidx = {id(x): i for i, x in enumerate(bis)}
+                got = ["%d:%d:%d" % (bidx.get(id(x), 999), k, e.offset)
+                       for x, k, e in gobjs]
+                may, must = [], []
+                for x in in_scope_bis:
+                    if x.address is None:
+                        continue
+                    for k, e in x.symbolic_expressions.items():
+                        p = x.address + k
+                        if rg[0] <= p < rg[1] and (p - rg[0]) % rg[2] == 0:
+                            it = "%d:%d:%d" % (bidx[id(x)], k, e.offset)
+                            may.append(it)
+                            if k < x.size:
+                                must.append(it)
+                ctx.evaluations += 1
+                self.emit("symq %s %d %d %d" % (arg_ids, rg[0], rg[1], rg[2]),
+                          "[" + ",".join(sorted(got)) + "]")
+                if got:
+                    ctx.nontriv((kind, "symat", len(got), rg[2] > 1,
+                                 len(may) - len(must)))
+                ctx.count("symq:%s:%s" % (kind, "hit" if got else "empty"))
+                if len(set(got)) != len(got) or \
+                        not set(must) <= set(got) <= set(may):
+                    return report("C13", "symbolic_expressions_at(%s) on %s "
+                                  "%d returned %s; must contain %s, may "
+                                  "contain %s" % (arg, kind, si, sorted(got),
+                                                  sorted(must), sorted(may)))
             if kind in ("mod", "ir"):
                 for meth, mode in (("sections_on", "on"),
                                    ("sections_at", "at")):
@@ -396,15 +469,15 @@ class World:
         return (lo, hi - lo)
 
 
-def run_history(ctx, hno, steps, tie, lookup_every):
-    w = World(ctx.rng)
+def run_history(ctx, hno, steps, tie, lookup_every, sym=False):
+    w = World(ctx.rng, sym)
     w.setup()
     script = []
     state = {"ok": True}
     first_lookup = w.addressless
 
     def report(prop, what):
-        if ctx.prop in (prop, "C12"):
+        if ctx.prop in (prop, "C12") or (sym and prop in ("C05", "C06")):
             ctx.report({"kind": "lookup-vs-scan", "prop": prop},
                        {"script": script, "lines": w.lines[-40:]}, what)
         state["ok"] = False
@@ -478,3 +551,17 @@ def search(ctx, broken):
 def replay(ctx, data):
     print("replay script:", data["replay"].get("script"))
     run(ctx)
+
+
+def run_sym(ctx, n=None):
+    """C13 at section / module / IR scope: the same edit histories with
+    symbolic expressions stored in the intervals (also beyond their declared
+    size), every scope's symbolic_expressions_at against the may/must
+    sandwich and against the Lean model `SymScopes` (exact)."""
+    tie = core.BatchTie(ctx, "symscopes", "symscopes", flush_at=60)
+    for h in range(n or ctx.scale(80, 3000)):
+        run_history(ctx, 5 * 10**5 + h, ctx.scale(40, 60), tie,
+                    ctx.rng.choice([0.3, 0.6, 1.0]), sym=True)
+        if len(ctx.violations) >= 3:
+            break
+    tie.flush()
